@@ -6,7 +6,8 @@ ID=$1; TIER=$2; shift 2
 cd /verif
 if [ -n "$(git -C /repo status --porcelain)" ]; then echo "/repo not clean"; exit 2; fi
 git -C /repo apply /verif/seeded/$ID/patch.diff || { echo "patch does not apply"; exit 2; }
-trap 'git -C /repo checkout -- . ; git -C /verif checkout -- evidence 2>/dev/null' EXIT
+export VERIF_EVIDENCE_DIR=/tmp/seeded-evidence
+trap 'git -C /repo checkout -- . ; rm -rf /tmp/seeded-evidence' EXIT
 for P in "$@"; do
     out=$(./check $P $TIER 2>&1); rc=$?
     n=$(echo "$out" | grep -c "^VIOLATION")
